@@ -621,6 +621,7 @@ resealed_done: ;
                 for (int i = drop; i < n; i++) lst[cnt++] = (char *)L->s.frag[perm[i]];
                 MISALIGN_SOME();
                 int dest = op == O_RECON_BADDEST ? (rng_below(&r, 2) ? n + (int)rng_below(&r, 40) : -1 - (int)rng_below(&r, 40)) : perm[0];
+                if (op == O_RECON_OK && drop < n && rng_below(&r, 4) == 0) { dest = perm[drop + (int)rng_below(&r, (uint32_t)(n - drop))]; mon_count("history_reconstruct_of_supplied_destination", 1); }
                 char *o = malloc(L->s.flen ? L->s.flen : 1);
                 static char *dummy[1];
                 int rc = liberasurecode_reconstruct_fragment(L->desc, cnt ? lst : dummy, cnt, L->s.flen, dest, o);
@@ -1106,6 +1107,41 @@ static void run_faults(void)
             mon_end();
         }
         fail_op = -1;
+    }
+    /* the backends' OWN init failure exits (not injected at the operation table): parameters the real init refuses,
+     * tried right after an instance of the same backend was created and destroyed, so that the descriptor the failing
+     * init allocates is a recycled heap chunk holding stale pointers */
+    {
+        static const struct { cfg_t good, bad; const char *why; } nat[] = {
+            { { EC_BACKEND_FLAT_XOR_HD, 10, 5, 3, 0, CHKSUM_CRC32 }, { EC_BACKEND_FLAT_XOR_HD, 4, 4, 3, 0, CHKSUM_CRC32 }, "xor(4,4,3)" },
+            { { EC_BACKEND_FLAT_XOR_HD, 6, 6, 4, 0, CHKSUM_NONE }, { EC_BACKEND_FLAT_XOR_HD, 10, 5, 5, 0, CHKSUM_NONE }, "xor(10,5,5)" },
+            { { EC_BACKEND_FLAT_XOR_HD, 15, 6, 3, 0, CHKSUM_NONE }, { EC_BACKEND_FLAT_XOR_HD, 16, 6, 3, 0, CHKSUM_NONE }, "xor(16,6,3)" },
+            { { EC_BACKEND_ISA_L_RS_VAND, 4, 2, 2, 0, CHKSUM_CRC32 }, { EC_BACKEND_ISA_L_RS_VAND, 4, 2, 2, 64, CHKSUM_CRC32 }, "isa_l_rs_vand w=64" },
+            { { EC_BACKEND_ISA_L_RS_VAND, 10, 4, 4, 8, CHKSUM_NONE }, { EC_BACKEND_ISA_L_RS_VAND, 10, 4, 4, 4, CHKSUM_NONE }, "isa_l_rs_vand w=4" },
+            { { EC_BACKEND_ISA_L_RS_CAUCHY, 5, 3, 3, 0, CHKSUM_CRC32 }, { EC_BACKEND_ISA_L_RS_CAUCHY, 5, 3, 3, 33, CHKSUM_CRC32 }, "isa_l_rs_cauchy w=33" },
+            { { EC_BACKEND_ISA_L_RS_CAUCHY, 2, 5, 5, 16, CHKSUM_NONE }, { EC_BACKEND_ISA_L_RS_CAUCHY, 2, 5, 5, 7, CHKSUM_NONE }, "isa_l_rs_cauchy w=7" },
+        };
+        for (size_t ni = 0; ni < sizeof nat / sizeof nat[0]; ni++) {
+            if (!isal_ok && (nat[ni].good.be == EC_BACKEND_ISA_L_RS_VAND || nat[ni].good.be == EC_BACKEND_ISA_L_RS_CAUCHY)) continue;
+            for (int rep = 0; rep < 3; rep++) {
+                if (!mon_case("natural-init-failure|%s|after-%d-instances", nat[ni].why, rep)) continue;
+                qp_t q0; q_begin(&q0);
+                for (int w = 0; w < rep; w++) { live_t L; if (live_open(&L, &nat[ni].good, 200 + (uint64_t)w, MO.seed) == 0) { live_roundtrip(&L, "C17", "before the failing create", w); live_close(&L); } else mon_viol("C17", "create-failed", "supported configuration refused"); }
+                for (int t = 0; t < 3; t++) {
+                    qp_t q; q_begin(&q); int before = registry_len();
+                    int d = lec_create(&nat[ni].bad);
+                    mon_count("evaluations", 1); mon_count("natural_init_failures", 1);
+                    if (d >= 0) { mon_viol("C17", "init-failure-not-reported", "create(%s) returned %d", nat[ni].why, d); if (d > 0) liberasurecode_instance_destroy(d); }
+                    q_zero(&q, "C17", "create whose backend init refuses the parameters");
+                    if (registry_len() != before) mon_viol("C17", "init-failure-registered", "registry length changed from %d to %d", before, registry_len());
+                }
+                { live_t L; if (live_open(&L, &nat[ni].good, 311, MO.seed) == 0) { live_roundtrip(&L, "C17", "create after failing creates", 1); live_close(&L); } else mon_viol("C17", "create-after-failed-init", "supported configuration refused after failing creates"); }
+                q_delta(&q0, "C17", "good/failing/good create sequence", 0, 1);
+                q_leakcheck("C17", "natural init failures");
+                mon_distinct("nontrivial", mon_hash_u64((uint64_t)ni * 8 + (uint64_t)rep, 171));
+                mon_end();
+            }
+        }
     }
     if (mon_case_all("final-leakcheck")) { q_leakcheck("C17", "end of fault workload"); mon_end(); }
 }
